@@ -1,0 +1,206 @@
+// This Source Code Form is subject to the terms of the Mozilla Public
+// License, v. 2.0. If a copy of the MPL was not distributed with this file,
+// You can obtain one at http://mozilla.org/MPL/2.0/.
+//
+// Copyright (c) 2026, Lukas Scheller lukasscheller@icloud.com
+
+//! The parser is a recursive descent parser. Input that is nested too deep must be reported
+//! as an error, it must not exhaust the stack of the thread, which aborts the process.
+//! Every token is part of the tree nevertheless.
+
+use vhdl_syntax::parser;
+use vhdl_syntax::parser::error::SyntaxErr;
+use vhdl_syntax::syntax::AstNode;
+
+/// The stack size of a worker thread
+const STACK_SIZE: usize = 2 * 1024 * 1024;
+
+/// (name, prefix, opens one level, innermost text, closes one level, suffix)
+type Nested = (
+    &'static str,
+    &'static str,
+    &'static str,
+    &'static str,
+    &'static str,
+    &'static str,
+);
+
+const DECLARATION: &str = "package p is\n  constant c : integer := ";
+const PROCESS: &str = "entity e is\nend;\n\narchitecture a of e is\nbegin\n  process\n  begin\n";
+const ARCHITECTURE: &str = "entity e is\nend;\n\narchitecture a of e is\nbegin\n";
+
+const EXPRESSIONS: &[Nested] = &[
+    (
+        "parenthesized expression",
+        DECLARATION,
+        "(",
+        "1",
+        ")",
+        ";\nend package;\n",
+    ),
+    (
+        "aggregate",
+        DECLARATION,
+        "(others => ",
+        "0",
+        ")",
+        ";\nend package;\n",
+    ),
+    (
+        "function call",
+        DECLARATION,
+        "a(b",
+        "",
+        ")",
+        ";\nend package;\n",
+    ),
+    (
+        "qualified expression",
+        DECLARATION,
+        "t'(",
+        "1",
+        ")",
+        ";\nend package;\n",
+    ),
+    (
+        "unary not",
+        DECLARATION,
+        "not ",
+        "a",
+        "",
+        ";\nend package;\n",
+    ),
+    (
+        "unary minus",
+        DECLARATION,
+        "- ",
+        "1",
+        "",
+        ";\nend package;\n",
+    ),
+];
+
+const BODIES_AND_STATEMENTS: &[Nested] = &[
+    (
+        "subprogram body",
+        "package body p is\n",
+        "function f return integer is\n",
+        "",
+        "begin\n  return 0;\nend function;\n",
+        "end package body;\n",
+    ),
+    (
+        "if statement",
+        PROCESS,
+        "if a then\n",
+        "null;\n",
+        "end if;\n",
+        "  end process;\nend architecture;\n",
+    ),
+    (
+        "case statement",
+        PROCESS,
+        "case a is\nwhen others =>\n",
+        "null;\n",
+        "end case;\n",
+        "  end process;\nend architecture;\n",
+    ),
+    (
+        "loop statement",
+        PROCESS,
+        "loop\n",
+        "null;\n",
+        "end loop;\n",
+        "  end process;\nend architecture;\n",
+    ),
+];
+
+const CONCURRENT_STATEMENTS: &[Nested] = &[
+    (
+        "block statement",
+        ARCHITECTURE,
+        "b : block\nbegin\n",
+        "",
+        "end block;\n",
+        "end architecture;\n",
+    ),
+    (
+        "if generate statement",
+        ARCHITECTURE,
+        "g : if c generate\n",
+        "",
+        "end generate;\n",
+        "end architecture;\n",
+    ),
+    (
+        "for generate statement",
+        ARCHITECTURE,
+        "g : for i in 0 to 1 generate\n",
+        "",
+        "end generate;\n",
+        "end architecture;\n",
+    ),
+];
+
+/// Parse and traverse the tree on a thread that has a small stack, the tree must be lossless
+fn parse(code: String) -> Vec<SyntaxErr> {
+    std::thread::Builder::new()
+        .stack_size(STACK_SIZE)
+        .spawn(move || {
+            let (file, errors) = parser::parse(code.as_bytes());
+            let mut text = Vec::new();
+            file.raw().write_to(&mut text).unwrap();
+            assert!(text == code.as_bytes(), "The tree is not lossless");
+            // Traverses all of the tree
+            let _ = file.raw().validate();
+            errors
+        })
+        .unwrap()
+        .join()
+        .unwrap()
+}
+
+fn nested(depth: usize, (_, prefix, open, inner, close, suffix): &Nested) -> String {
+    [
+        *prefix,
+        &open.repeat(depth),
+        inner,
+        &close.repeat(depth),
+        suffix,
+    ]
+    .concat()
+}
+
+fn check_nested(constructs: &[Nested]) {
+    for construct in constructs {
+        let (name, prefix, open, ..) = construct;
+        for depth in [1, 50, 200] {
+            let errors = parse(nested(depth, construct));
+            assert!(
+                errors.is_empty(),
+                "{name} nested {depth} times has errors, first {:?}",
+                errors.first()
+            );
+        }
+        let too_deep = 100_000;
+        let unclosed = [*prefix, &open.repeat(too_deep)].concat();
+        assert!(!parse(unclosed).is_empty(), "No error for nested {name}");
+        let closed = nested(too_deep, construct);
+        assert!(!parse(closed).is_empty(), "No error for nested {name}");
+    }
+}
+
+#[test]
+fn nested_expressions() {
+    check_nested(EXPRESSIONS);
+}
+
+#[test]
+fn nested_bodies_and_sequential_statements() {
+    check_nested(BODIES_AND_STATEMENTS);
+}
+
+#[test]
+fn nested_concurrent_statements() {
+    check_nested(CONCURRENT_STATEMENTS);
+}
